@@ -370,6 +370,7 @@ class MCLevyCopulaSimulationMaximumStep(
         )
 
         if jump_times.size == 0:
-            return jump_times, jump_values
-        else:
-            return self.build_finer_grid(jump_times, jump_values)
+            # no jump: the step from 0 to the maturity is capped as well (one row of values per underlying)
+            jump_values = np.zeros(shape=(self._dimension, 0))
+
+        return self.build_finer_grid(jump_times, jump_values)
